@@ -140,6 +140,29 @@ func genCase(t *rapid.T) Case {
 			}
 		}
 	}
+	// a small line far from the origin (an exact whole-number translation; odd offsets
+	// of 20-52 bits, not multiples of a large power of two): coordinates of a projected
+	// system, where expressions in absolute coordinates cancel
+	small := shape != "mixed-scale"
+	for _, q := range c.Pts {
+		if q[0] > 1<<21 || q[0] < -(1<<21) || q[1] > 1<<21 || q[1] < -(1<<21) {
+			small = false
+		}
+	}
+	if small && rapid.IntRange(0, 4).Draw(t, "offset") == 0 {
+		var o [2]int64
+		for d := range o {
+			o[d] = rapid.Int64Range(1<<uint(rapid.IntRange(20, 51).Draw(t, "offbits")), 1<<52-1).Draw(t, "off") | 1
+			if rapid.Bool().Draw(t, "offneg") {
+				o[d] = -o[d]
+			}
+		}
+		for i := range c.Pts {
+			c.Pts[i][0] += o[0]
+			c.Pts[i][1] += o[1]
+		}
+		c.Shape += "+offset"
+	}
 	if rapid.IntRange(0, 5).Draw(t, "scaled") == 0 {
 		c.Exp = rapid.SampledFrom([]int{400, -400, 200, -200, 50, -50}).Draw(t, "exp")
 		if rapid.Bool().Draw(t, "expany") {
